@@ -1,7 +1,7 @@
 import Goflow.Format.Formatter
 /-!
   C13 — "JSON and text forms of one message describe the same values": both are images of one list of
-  rendered fields. `fieldsOf f m` computes, for every configured field that is printed, its name and
+  rendered fields. `printedFields f m` computes, for every configured field that is printed, its name and
   its rendered value (a scalar `Rendered`, or the rendered elements of an array); `formatItems` for
   JSON and for text are that list passed through the two concrete syntaxes, item by item.
 -/
@@ -26,7 +26,7 @@ def fieldOf (f : Fmt) (m : FlowMsg) (unk : List (String × FV)) (s : String) : O
       | .nil => none
       | r => some (finalNameOf f s, .scalar r)
 
-def fieldsOf (f : Fmt) (m : FlowMsg) : List (Bytes × RVal) :=
+def printedFields (f : Fmt) (m : FlowMsg) : List (Bytes × RVal) :=
   f.fields.filterMap (fieldOf f m (mapUnknown f m.unk))
 
 /-- array body in a concrete syntax: each rendered element, a comma behind every element but the last of the array -/
@@ -66,10 +66,10 @@ theorem itemOf_eq (f : Fmt) (m : FlowMsg) (unk : List (String × FV)) (json : Bo
 /-- both forms print the same fields, in the same order, with the same names and the same rendered values:
     they differ only in the concrete syntax `showItem` -/
 theorem forms_agree (f : Fmt) (m : FlowMsg) :
-    formatItems f m true [0x22] [0x3a] = (fieldsOf f m).map (showItem true [0x22] [0x3a]) ∧
-    formatItems f m false [] (str "=") = (fieldsOf f m).map (showItem false [] (str "=")) := by
+    formatItems f m true [0x22] [0x3a] = (printedFields f m).map (showItem true [0x22] [0x3a]) ∧
+    formatItems f m false [] (str "=") = (printedFields f m).map (showItem false [] (str "=")) := by
   constructor <;>
-  · unfold formatItems fieldsOf
+  · unfold formatItems printedFields
     rw [List.map_filterMap]
     congr 1
     funext s
